@@ -29,6 +29,7 @@ import (
 	"path/filepath"
 	"strconv"
 	"strings"
+	"time"
 
 	"github.com/rqlite/rqlite/v10/command/proto"
 	sql "github.com/rqlite/rqlite/v10/db"
@@ -45,9 +46,13 @@ type verifC21Sink struct {
 	budget int
 	got    []byte
 	failed bool
+	hook   func() // called at the start of every Write (something else happens during the copy)
 }
 
 func (w *verifC21Sink) Write(p []byte) (int, error) {
+	if w.hook != nil {
+		w.hook()
+	}
 	if w.failed {
 		return 0, verifC21ErrSink
 	}
@@ -84,8 +89,11 @@ func verifC21NewEnv(img []byte) *verifC21Env {
 	s := &Store{
 		open:         rsync.NewAtomicBool(),
 		snapshotCAS:  rsync.NewCheckAndSet(),
+		snapshotSync: rsync.NewSyncChannels(),
 		logger:       log.New(io.Discard, "", 0),
 		RaftLogLevel: "WARN",
+
+		NoSnapshotOnClose: true,
 	}
 	s.open.Set()
 	e.s = s
@@ -444,6 +452,77 @@ func VerifC21ToFile() {
 	verifAssert("C21-scratch-files-removed", e.scratchLeft() == 0)
 }
 
+// verifC21TrySnapshot runs the real fsmSnapshot (what Raft calls to snapshot the FSM) and says
+// whether it was REFUSED at the snapshot gate: an error that is a gate conflict, no panic, and
+// nothing of the database touched.
+func verifC21TrySnapshot(s *Store) (refused bool) {
+	defer func() {
+		if r := recover(); r != nil {
+			if _, ok := r.(verifStop); ok {
+				panic(r)
+			}
+			refused = false // it got past the gate and ran into the parts this Store does not have
+		}
+	}()
+	_, err := s.fsmSnapshot()
+	return err != nil && errors.Is(err, rsync.ErrCASConflict)
+}
+
+// VerifC21Gate: the gate discipline the binary backup relies on - the gate is held by the backup
+// for the whole copy of the database file, and whoever is refused the gate never releases it.
+//
+//	who 0: Raft asks for a snapshot (real fsmSnapshot), twice, while "backup" holds the gate
+//	who 1: Store.Close gives up after its wait limit while "backup" holds the gate
+//	who 2: the real Backup copies the database file; at every Write of the destination Raft
+//	       asks for a snapshot twice
+func VerifC21Gate() {
+	verifPanicsAreViolations()
+	img := verifBytes("image", 2)
+	e := verifC21NewEnv(img)
+	defer e.cleanup()
+	s := e.s
+	switch verifChoice("who", 3) {
+	case 0:
+		verifAssume(s.snapshotCAS.Begin("backup") == nil)
+		for i := 0; i < 2; i++ {
+			verifAssert("C21-snapshot-refused-while-backup-holds-the-gate", verifC21TrySnapshot(s))
+			verifAssert("C21-refused-snapshot-leaves-the-gate-with-the-backup", s.snapshotCAS.Owner() == "backup")
+		}
+		verifReach("snapshot-refused")
+		verifAssert("C21-refused-snapshot-does-not-touch-the-database", !verifC21SnapshotTouchedDB)
+		// once the backup is done a snapshot gets past the gate (and, on this Store, no further)
+		s.snapshotCAS.End()
+		verifAssert("C21-snapshot-passes-a-free-gate", !verifC21TrySnapshot(s))
+	case 1:
+		verifAssume(s.snapshotCAS.Begin("backup") == nil)
+		err := s.Close(true)
+		verifReach("close-gave-up")
+		verifAssert("C21-close-refused-while-backup-holds-the-gate", err != nil)
+		verifAssert("C21-refused-close-leaves-the-gate-with-the-backup", s.snapshotCAS.Owner() == "backup")
+	case 2:
+		compress := verifChoice("compress", 2) == 1
+		br := verifC21Request(0, false, compress)
+		want := e.expected(br)
+		attempts := 0
+		w := &verifC21Sink{budget: -1}
+		w.hook = func() {
+			for i := 0; i < 2; i++ {
+				attempts++
+				verifAssert("C21-gate-held-by-backup-during-the-copy", s.snapshotCAS.Owner() == "backup")
+				verifAssert("C21-snapshot-refused-while-backup-holds-the-gate", verifC21TrySnapshot(s))
+				verifAssert("C21-refused-snapshot-leaves-the-gate-with-the-backup", s.snapshotCAS.Owner() == "backup")
+			}
+		}
+		err := s.Backup(context.Background(), br, w)
+		verifAssert("C21-backup-succeeds-despite-snapshot-attempts", err == nil)
+		verifAssert("C21-snapshot-attempts-happened-during-the-copy", attempts >= 2)
+		verifReach("snapshot-attempts-during-copy")
+		verifAssert("C21-refused-snapshot-does-not-touch-the-database", !verifC21SnapshotTouchedDB)
+		verifAssert("C21-success-means-complete-artifact", verifC21Complete(w.got, compress, want))
+		verifAssert("C21-snapshot-gate-released", s.snapshotCAS.Begin("verif") == nil)
+	}
+}
+
 // VerifC21Twin: vacuity guard - same shape, final claim is false.
 func VerifC21Twin() {
 	img := verifBytes("image", 3)
@@ -505,6 +584,7 @@ func verifC21Reset() {
 	verifC21Seq = 0
 	verifC21SrcFail = false
 	verifC21Image = nil
+	verifC21SnapshotTouchedDB = false
 }
 
 // --- the SQLite handle: what (*Store).Backup asks of it
@@ -526,6 +606,17 @@ func verifC21DumpText(img []byte) []byte {
 	}
 	return append(out, 'C', ';')
 }
+
+// verifC21SnapshotTouchedDB: a snapshot got past the gate and started on the database (the first
+// thing fsmSnapshot does there is SetSynchronousMode; the model refuses it).
+var verifC21SnapshotTouchedDB bool
+
+func verifC21DBSetSynchronousMode(db *sql.SwappableDB, mode sql.SynchronousMode) error {
+	verifC21SnapshotTouchedDB = true
+	return verifC21ErrSrc
+}
+
+func verifC21RecordDuration(stat string, startT time.Time) {}
 
 func verifC21DBWALSize(db *sql.SwappableDB) (int64, error) { return 0, nil }
 
